@@ -372,21 +372,34 @@ where
         confirmed: bool,
     ) -> Result<SendResponse, Error<R::PhyError>> {
         // Prepare transmission buffer
-        let (tx_config, rx_windows, _fcnt_up) = self.mac.send::<G, N>(
+        let (tx_config, rx_windows, fcnt_up) = self.mac.send::<G, N>(
             &mut self.rng,
             &mut self.radio_buffer,
             &SendData { data, fport, confirmed },
         )?;
-        // Transmit our data packet
-        let ms = self
-            .radio
-            .tx(tx_config, self.radio_buffer.as_ref_for_read())
-            .await
-            .map_err(Error::Radio)?;
+        let result: Result<SendResponse, Error<R::PhyError>> = async {
+            // Transmit our data packet
+            let ms = self
+                .radio
+                .tx(tx_config, self.radio_buffer.as_ref_for_read())
+                .await
+                .map_err(Error::Radio)?;
 
-        // Wait for received data within window
-        self.timer.reset();
-        Ok(self.rx_downlink(&Frame::Data, ms, &rx_windows).await?.into())
+            // Wait for received data within window
+            self.timer.reset();
+            Ok(self.rx_downlink(&Frame::Data, ms, &rx_windows).await?.into())
+        }
+        .await;
+        // The frame has been handed to the radio, so its counter is spent even when the radio
+        // failed before a receive window could close the transaction: a later uplink must never
+        // reuse the counter (and with it the keystream) with different contents.
+        if result.is_err()
+            && self.mac.get_fcnt_up() == Some(fcnt_up)
+            && let mac::Response::SessionExpired = self.mac.rx2_complete()
+        {
+            return Ok(SendResponse::SessionExpired);
+        }
+        result
     }
 
     /// Take the downlink data from the device. This is typically called after a
